@@ -18,7 +18,7 @@
 From stdpp Require Import gmap.
 From RecordUpdate Require Import RecordSet.
 Import RecordSetNotations.
-From GV Require Import State.Ref State.Journal State.JournalProofs State.Refine State.Dirties.
+From GV Require Import Lib.Bytes Trie.Node State.Ref State.Journal State.JournalProofs State.Refine State.Dirties State.Commit State.CommitFin State.CommitBlock State.Root State.RootProofs.
 Local Open Scope N_scope.
 
 (* the state a StateDB starts from is well-formed, whatever the committed pre-state *)
@@ -57,6 +57,51 @@ Theorem C13_run_refines_partial : ∀ ops j r,
   Inv j r → hist_ok j ops → Inv (run_j j ops) (run_r r ops) ∧ outs_j j ops = outs_r r ops.
 Proof. exact run_refines. Qed.
 Print Assumptions C13_run_refines_partial.
+
+(* THE ROOT CLAUSE: "the intermediate state root equals the root computed from the model's
+   accounts and storage".  The implementation side is C14's model State/Commit.v (the C13
+   journal model plus StateDB.mutations/applied, uncommittedStorage, data.Root, the tries);
+   [root_r H rs] is the MODEL ROOT of State/Root.v: built from scratch, by the Coq trie, from
+   the reference model's accounts and non-zero storage, with no incremental state.
+   For every hash function H with byte output, every universe on which the secure keys
+   H(address), H(slot) are collision free, every block of transactions ts (each: journalled
+   calls with arbitrarily nested Snapshot/RevertToSnapshot, Finalise, optionally
+   IntermediateRoot) run from a state satisfying C14's between-transactions invariant Sync
+   and related to a reference state by C13's Inv: the root returned by the final
+   IntermediateRoot is the model root of the reference state after the same calls.
+   Proof: C13 run_refines + C14 block_hashed (sync_ir) + uniqueness of canonical tries.
+   PARTIAL: the history must satisfy C14's guards (txs_ok: C13's call guards, no RIPEMD
+   sticky touch, no Prepare in the body, touched keys in the universe) AND C13's hist_ok
+   (which adds the Finalise guards), and the reference storage must lie in the slot universe
+   ([in_universe], a hypothesis on the final reference state, not derived). *)
+Theorem C13_root_refines_partial :
+  ∀ (H : list N → list N), (∀ x, forallb byteb (H x) = true) →
+  ∀ (addr_ok : addr → Prop) (slot_ok : slot → Prop),
+    (∀ a b, addr_ok a → addr_ok b → addr_key H a = addr_key H b → a = b) →
+    (∀ a b, slot_ok a → slot_ok b → slot_key H a = slot_key H b → a = b) →
+  ∀ p cs0 ts cs r root cs1 rs0,
+    Sync H addr_ok slot_ok p cs0 → txs_ok H addr_ok slot_ok p cs0 ts → run_txs H p cs0 ts = Some cs →
+    intermediate_root H r p cs = COk (root, cs1) →
+    Inv (c_j cs0) rs0 → hist_ok (c_j cs0) (txs_flat ts ++ [OFinalise r]) →
+    in_universe slot_ok (r_cur (run_r rs0 (txs_flat ts ++ [OFinalise r]))) →
+    root_r H (run_r rs0 (txs_flat ts ++ [OFinalise r])) = Some root.
+Proof. exact root_refines. Qed.
+Print Assumptions C13_root_refines_partial.
+
+(* ... in particular from the empty chain start (state.New on the empty root) *)
+Theorem C13_root_refines_genesis_partial :
+  ∀ (H : list N → list N), (∀ x, forallb byteb (H x) = true) →
+  ∀ (addr_ok : addr → Prop) (slot_ok : slot → Prop),
+    (∀ a b, addr_ok a → addr_ok b → addr_key H a = addr_key H b → a = b) →
+    (∀ a b, slot_ok a → slot_ok b → slot_key H a = slot_key H b → a = b) →
+  ∀ ts cs r root cs1,
+    txs_ok H addr_ok slot_ok pdb0 (cs_genesis H) ts → run_txs H pdb0 (cs_genesis H) ts = Some cs →
+    intermediate_root H r pdb0 cs = COk (root, cs1) →
+    hist_ok (init_j ∅) (txs_flat ts ++ [OFinalise r]) →
+    in_universe slot_ok (r_cur (run_r (init_r ∅) (txs_flat ts ++ [OFinalise r]))) →
+    root_r H (run_r (init_r ∅) (txs_flat ts ++ [OFinalise r])) = Some root.
+Proof. exact root_refines_genesis. Qed.
+Print Assumptions C13_root_refines_genesis_partial.
 
 (* dirties_exact — the invariant Finalise relies on — after EVERY history (no guard, the
    RIPEMD-160 touch included): an address is a key of journal.mutations iff some live
